@@ -388,5 +388,52 @@ def run_case(case):
                         if after != before:
                             d = [(k, before.get(k), after.get(k)) for k in sorted(set(before) | set(after)) if before.get(k) != after.get(k)]
                             bad("hyper-parameters changed by %s" % meth, meth, "%r %s" % (d[:3], hdesc))
+    # weighted fits on grouped data with patterns of ZERO weights (a whole group masked out, every second row masked out) and
+    # fractional / large weights elsewhere: branches for empty or weightless clusters / buckets / leaves are only reached here
+    if takes_w and arrays and kind in ("reg", "clf", "cluster") and case["slice"][0] == 0 and case["variant"] != "faulty":
+        g3 = numpy.array([[0.0, 0.0], [0.2, 0.1], [0.1, 0.3], [0.3, 0.2], [5.0, 5.0], [5.2, 5.1], [5.1, 5.3], [5.3, 5.2],
+                          [10.0, 0.0], [10.2, 0.1], [10.1, 0.3], [10.3, 0.2]])
+        yb = {"reg": g3[:, 0] * 0.5 + numpy.arange(12) % 3, "clf": numpy.array([0, 1, 0, 1] * 3), "cluster": None}[kind]
+        for pname, wv in (("one group at weight 0, others 2", numpy.where(numpy.arange(12) // 4 == 1, 0.0, 2.0)),
+                          ("last group at weight 0, others 0.5", numpy.where(numpy.arange(12) // 4 == 2, 0.0, 0.5)),
+                          ("first group at weight 0, others 1/3/7", numpy.where(numpy.arange(12) // 4 == 0, 0.0, 1.0 + 2.0 * (numpy.arange(12) % 3) ** 1.5)),
+                          ("every second row at weight 0", numpy.where(numpy.arange(12) % 2 == 0, 0.0, 4.0))):
+            for nclu in (None, 3):
+                est = make()
+                if nclu is not None:
+                    keys = [k_ for k_ in est.get_params(deep=True) if k_.rsplit("__", 1)[-1] in ("n_clusters", "c_n_clusters")]
+                    if not keys:
+                        continue
+                    try:
+                        est.set_params(**{k_: nclu for k_ in keys})
+                    except Exception:
+                        continue
+                Xb, yw, wb = _layout(g3, lay), _layout(yb, lay), _layout(wv, lay)
+                dX, dy, dw = _dig(Xb), _dig(yw), _dig(wb)
+                try:
+                    before = K.flat_params(est)
+                except Exception:
+                    continue
+                cnt += 1
+                trans += 1
+                numpy.random.seed(0)
+                wdesc = "variant=%s layout=%s weighted fit on three groups of four points, %s%s" % (
+                    case["variant"], lay, pname, "" if nclu is None else ", n_clusters=3")
+                raised = None
+                try:
+                    do_fit(est, Xb, yw, wb)
+                except Exception as e_:
+                    raised = e_
+                if _dig(wb) != dw:
+                    bad("caller sample_weight modified by fit", "fit(zero-weight groups)", wdesc)
+                if _dig(Xb) != dX or _dig(yw) != dy:
+                    bad("caller data modified by fit", "fit(zero-weight groups)", wdesc)
+                try:
+                    after = K.flat_params(est)
+                    if after != before:
+                        d = [(k, before.get(k), after.get(k)) for k in sorted(set(before) | set(after)) if before.get(k) != after.get(k)]
+                        bad("hyper-parameters changed by fit", ("failing " if raised is not None else "successful ") + "fit(zero-weight groups)", "%r %s" % (d[:3], wdesc))
+                except Exception as e_:
+                    bad("get_params raises %s" % type(e_).__name__, "after fit(zero-weight groups)", "%s %s" % (e_, wdesc))
     return {"viol": viol, "nontrivial": ntriv > 0, "states": cnt, "transitions": trans,
             "outcome": (cls, case["variant"], Kfault), "counters": {"fault_positions": Kfault, "histories_with_final_fit_compared": ntriv}}
